@@ -141,9 +141,9 @@ def worker(ctx: Ctx):
     if ctx.idx == 0:
         ctx.extra["shipped_scenarios_used"] = ", ".join(paths)
     q = ctx.tier == "quick"
-    hyp_run(ctx, gen_case_strategy(max_ops=30), run_case, 35 if q else 600, sub=0)
-    hyp_run(ctx, shipped_case_strategy(paths, max_ops=25), run_case, 12 if q else 200, sub=1)
+    hyp_run(ctx, gen_case_strategy(max_ops=30), run_case, 60 if q else 600, sub=0)
+    hyp_run(ctx, shipped_case_strategy(paths, max_ops=25), run_case, 16 if q else 200, sub=1)
     hyp_run(ctx, folder_case_strategy(small_only=q, max_ops=24), run_case, 3 if q else 30, sub=2)
     slow = ("uc7", "tap00", "nmap")  # long tails on the big scenarios only in the thorough tier
     lp = [p for p in paths if not (q and any(s in p.lower() for s in slow))]
-    hyp_run(ctx, long_case_strategy(lp), run_case, 10 if q else 120, sub=3)
+    hyp_run(ctx, long_case_strategy(lp), run_case, 14 if q else 120, sub=3)
